@@ -136,6 +136,26 @@ def audit_axioms(module, theorems, timeout=900):
 FORBIDDEN = ["sorry", "admit", "native_decide", "bv_decide", "implemented_by", "unsafe ", "maxHeartbeats 0"]
 
 
+def import_closure(modules):
+    """source files of the given Lean modules and of everything of this project they import"""
+    import re as _re
+    seen, todo, files = set(), list(modules), []
+    while todo:
+        m = todo.pop()
+        if m in seen:
+            continue
+        seen.add(m)
+        path = os.path.join(LEAN, *m.split(".")) + ".lean"
+        if not os.path.exists(path):
+            continue
+        files.append(path)
+        for line in open(path, encoding="utf-8"):
+            mm = _re.match(r"\s*(?:public\s+)?import\s+(CLModel[\w.]*|Driver)", line)
+            if mm:
+                todo.append(mm.group(1))
+    return files
+
+
 def grep_forbidden(paths):
     """scan Lean sources (comments stripped crudely) for forbidden constructs"""
     import re as _re
